@@ -24,6 +24,7 @@ Hash(ps)  == [t |-> "hash", pairs |-> ps]      \* sequence of <<key bytes, value
 OOM       == [t |-> "oom"]                     \* out of model (not a stick value)
 ErrV      == [t |-> "err"]                     \* evaluation failed (not a stick value)
 MacroSet(tpl) == [t |-> "macros", tpl |-> tpl]
+Safe(v, types) == [t |-> "safe", v |-> v, types |-> types]   \* stick.SafeValue: already escaped for these content types
 
 IsOOM(v) == v.t = "oom"
 IsNum(v) == v.t = "num"
@@ -83,8 +84,10 @@ StrToNum(s) ==
 
 --------------------------------------------------------------------------
 (* Coercions (value.go), on the region where stick and Twig agree.         *)
+RECURSIVE CoerceNumber(_), CoerceBytes(_), CoerceBool3(_)
 CoerceNumber(v) ==
   CASE v.t = "num"  -> v
+    [] v.t = "safe" -> CoerceNumber(v.v)          \* a safe wrapper coerces like the value inside
     [] v.t = "str"  -> StrToNum(v.s)
     [] v.t = "bool" -> IF v.b THEN IntV(1) ELSE IntV(0)
     [] v.t = "null" -> IntV(0)
@@ -93,6 +96,7 @@ CoerceNumber(v) ==
 
 CoerceBytes(v) ==              \* CoerceString; OOM is represented by <<-1>>
   CASE v.t = "num"  -> NumToBytes(v.q)
+    [] v.t = "safe" -> CoerceBytes(v.v)
     [] v.t = "str"  -> v.s
     [] v.t = "bool" -> IF v.b THEN <<49>> ELSE <<>>
     [] v.t = "null" -> <<>>
@@ -103,6 +107,7 @@ BytesOOM(b) == b = <<-1>>
 (* the string "0", arrays)                                                  *)
 CoerceBool3(v) ==
   CASE v.t = "bool" -> IF v.b THEN "t" ELSE "f"
+    [] v.t = "safe" -> CoerceBool3(v.v)
     [] v.t = "num"  -> IF v.q > 0 THEN "t" ELSE IF v.q = 0 THEN "f" ELSE "oom"
     [] v.t = "str"  -> IF v.s = <<>> THEN "f" ELSE IF v.s = <<48>> THEN "oom" ELSE "t"
     [] v.t = "null" -> "f"
